@@ -6,7 +6,8 @@ import random
 import yaml
 
 from .. import core, yamlapi, sigs
-from ..gen import gdoc, values as V, options as O
+from ..gen import gdoc, values as V, options as O, boundary
+from ..mon import streams
 from ..ref import bisim
 
 ID = 'C06'
@@ -41,6 +42,7 @@ def plan(tier, seed):
     for i in range(3 if q else 6):
         specs.append({'kind': 'emit', 'shard': i, 'n': 1000 if q else 20000, 'cext': 'plain'})
     specs.append({'kind': 'errors', 'shard': 0, 'n': 1500 if q else 20000, 'cext': 'plain'})
+    specs.append({'kind': 'limits', 'shard': 0, 'n': 1, 'cext': 'plain'})
     if not q:
         for i in range(2):
             specs.append({'kind': 'gdoc', 'shard': 100 + i, 'n': 6000, 'cext': 'asan'})
@@ -48,9 +50,35 @@ def plan(tier, seed):
     return specs
 
 
+class StreamSource:
+    """A fresh short-read stream over the same data for every read (compare() reads a case many times)."""
+
+    def __init__(self, data, schedule):
+        self.data, self.schedule = data, schedule
+
+    def open(self):
+        return streams.ReadStream(self.data, self.schedule)
+
+    def __len__(self):
+        return len(self.data)
+
+    def __getitem__(self, i):
+        return self.data[i]
+
+    def startswith(self, x):
+        return self.data.startswith(x) if isinstance(self.data, bytes) else False
+
+    def decode(self, *a):
+        return self.data.decode(*a) if isinstance(self.data, bytes) else self.data
+
+
+def src_of(text):
+    return text.open() if isinstance(text, StreamSource) else text
+
+
 def events_of(text, lname):
     try:
-        return ('ok', [sigs.ev_sig(e) for e in yaml.parse(text, Loader=getattr(yaml, lname))])
+        return ('ok', [sigs.ev_sig(e) for e in yaml.parse(src_of(text), Loader=getattr(yaml, lname))])
     except yaml.YAMLError as e:
         return ('err', type(e).__name__)
 
@@ -58,7 +86,7 @@ def events_of(text, lname):
 def nodes_of(text, lname):
     out = []
     try:
-        for n in yaml.compose_all(text, Loader=getattr(yaml, lname)):
+        for n in yaml.compose_all(src_of(text), Loader=getattr(yaml, lname)):
             out.append(sigs.node_sig(n))
         return ('ok', out)
     except yaml.YAMLError as e:
@@ -68,7 +96,7 @@ def nodes_of(text, lname):
 def objects_of(text, lname):
     out = []
     try:
-        for d in yaml.load_all(text, Loader=getattr(yaml, lname)):
+        for d in yaml.load_all(src_of(text), Loader=getattr(yaml, lname)):
             out.append(bisim.sig(d))
         return ('ok', out)
     except yaml.YAMLError as e:
@@ -89,7 +117,7 @@ def compare(text, ctx, case, expected=None, want_ok=False):
         ctx.stat('construction_comparisons')
         for name in ('Loader', 'CLoader'):
             try:
-                got = [gdoc.ev_tuple(e) for e in yaml.parse(text, Loader=getattr(yaml, name))]
+                got = [gdoc.ev_tuple(e) for e in yaml.parse(src_of(text), Loader=getattr(yaml, name))]
             except yaml.YAMLError as e:
                 bad.append({'what': 'valid-by-construction document rejected', 'loader': name, 'exc': yamlapi.exc_sig(e)})
                 continue
@@ -110,7 +138,7 @@ def compare(text, ctx, case, expected=None, want_ok=False):
             bad.append({'what': 'constructed objects differ between back-ends', 'pair': [pl, cl], 'diff': first_diff(po, co)})
     mech = None
     if bad:
-        t = text
+        t = text.data if isinstance(text, StreamSource) else text
         if isinstance(t, bytes):
             try:
                 t = t.decode('utf-16' if t.startswith((b'\xff\xfe', b'\xfe\xff')) else 'utf-8')
@@ -121,7 +149,10 @@ def compare(text, ctx, case, expected=None, want_ok=False):
         if sigs.f14_text(t) and all(b.get('loader') != 'Loader' and 'rejected by the Python parser' not in b['what'] for b in bad):
             mech = 'F14'
     for b in bad:
-        b['text'] = text if isinstance(text, (str, bytes)) and len(text) < 3000 else text[:3000]
+        tt = text.data if isinstance(text, StreamSource) else text
+        b['text'] = tt if len(tt) < 3000 else tt[:3000]
+        if isinstance(text, StreamSource):
+            b['stream_schedule'] = text.schedule
         ctx.violation(case, b, mech)
     return not bad
 
@@ -253,6 +284,12 @@ def run(spec, ctx):
                 src = text.encode('utf-8')
             elif form < 0.25:
                 src = text.encode('utf-16')
+            elif form < 0.4:
+                # the same characters through a short-read stream (text or UTF-8 bytes): every reader sees them in pieces
+                sched = r.choice([[1], [7], [3, 1], [64], [5, 4096]])
+                data = text if r.random() < 0.5 else text.encode('utf-8')
+                src = StreamSource(data, sched)
+                ctx.stat('stream_deliveries')
             compare(src, ctx, case, expected=exp)
         elif k == 'dump':
             vs, classes = V.gen_spec(r)
@@ -286,6 +323,14 @@ def run(spec, ctx):
             compare(text, ctx, case, want_ok=True)
         elif k == 'errors':
             error_case(r, ctx, i)
+        elif k == 'limits':
+            # documents exactly on the simple-key length limit, in every key spelling: both back-ends must agree on either side of it
+            for text, label in boundary.simple_key_docs():
+                case = {'kind': 'gdoc', 'text': text, 'label': label}
+                ctx.crumb({'kind': 'limits', 'label': label})
+                ctx.case(core.h64(text), True, ['limit:' + label.split(':')[0]])
+                compare(text, ctx, case)
+            ctx.sample({'class': 'simple-key length limits', 'lengths': '1019..1029, 126..129'})
 
 
 def replay(case, ctx):
